@@ -1030,6 +1030,12 @@ func judgeFaulty(o *engine.Outcome, w *world, d *spec.Design, m *spec.Method, ex
 	case strings.Contains(strings.Join(ex.Faults, ","), "dup_request") && ex.ReqFault == "" && ex.RespFault == "" && !ex.WriterErrSeen:
 		if w.err == nil && len(w.invoked) == 2 {
 			if !gen.Equal(w.invoked[0].got, w.invoked[1].got) {
+				// (keys of a query map that contain ']' arrive cut short - the recorded finding - and two of them cut to the
+				// same text make the decoded map depend on the order in which the server walks the query values)
+				if diff := gen.Diff(w.invoked[0].got, w.invoked[1].got, ""); diffClassP(d, m, diff, payload) == "query-map-key-contains-closing-bracket" {
+					o.Features["known_defect_class_in_the_way"]++
+					return
+				}
 				o.Violate("fault_dup_differs", "fault_dup_differs", "%s: duplicated request delivered two different payloads: %s vs %s", where, gen.Show(w.invoked[0].got), gen.Show(w.invoked[1].got))
 			}
 		}
